@@ -80,7 +80,21 @@ def run_mem(case):
                         cf.mem.write(m, a, b'\x07\x08')
                         issued.append({'op': 'write', 'mem': m.id, 'addr': a, 'len': 2, 'data': b'\x07\x08', 'accepted': True, 'maybe_superseded': late_})
                 cf.mem.mem_write_failed_cb.add_callback(retry)
+
+                def retry_read(m, a, d):
+                    # the failed read is over when its failure is reported: the same memory can be read again from inside the notification
+                    if not retried_r and not env.world.fault_fired and cf.link is not None:
+                        retried_r.append((m.id, a))
+                        ln_ = max(1, min(4, sizes[m.id] - a)) if a < sizes[m.id] else 4
+                        acc = cf.mem.read(m, a, ln_)
+                        out.feat('read-again-from-failure-notification')
+                        if not acc:
+                            out.fail('mem:retry-refused', 'read(mem %d, %d, %d) issued from inside the failure notification of the previous read of that memory was refused' % (m.id, a, ln_))
+                        issued.append({'op': 'read', 'mem': m.id, 'addr': a, 'len': ln_, 'accepted': bool(acc), 'snapshot': dev.mem.mems[m.id].peek(a, ln_),
+                                       'maybe_superseded': False})
+                cf.mem.mem_read_failed_cb.add_callback(retry_read)
         retried = []
+        retried_r = []
         attach()
         # ---- reply policy for the memory port
         memrep = {'n': 0}
@@ -412,6 +426,23 @@ def drop_sweep_cases(tier):
                        'schedule': {'prefix': [], 'seed': k, 'rate': 0.0}}
 
 
+def error_sweep_cases(tier):
+    """the device refuses the k-th chunk of two fixed histories; the application tries again from inside the failure notification"""
+    hist = [
+        [{'op': 'read', 'mem': 0, 'addr': 0, 'len': 45, 'seed': 0, 'flush': False, 'gap': 0},
+         {'op': 'read', 'mem': 1, 'addr': 9, 'len': 20, 'seed': 0, 'flush': False, 'gap': 0},
+         {'op': 'write', 'mem': 0, 'addr': 64, 'len': 30, 'seed': 4, 'flush': False, 'gap': 0}],
+        [{'op': 'write', 'mem': 0, 'addr': 3, 'len': 60, 'seed': 1, 'flush': False, 'gap': 0},
+         {'op': 'read', 'mem': 1, 'addr': 5, 'len': 61, 'seed': 0, 'flush': False, 'gap': 0.0005}],
+    ]
+    for h in hist:
+        for k in range(0, 8):
+            for retry in (True, False):
+                for rate in (0.0, 0.3):
+                    yield {'sizes': [128, 128], 'ops': h, 'needs_resending': False, 'policy': {'delays': [], 'dups': [], 'errors': [k], 'dup_gap': 0.001},
+                           'drop': None, 'retry_on_fail': retry, 'schedule': {'prefix': [], 'seed': k, 'rate': rate}}
+
+
 def late_duplicate_cases(tier):
     """one range transferred twice in a row; each reply of the first transfer duplicated in turn, the copy arriving at every phase of the second"""
     for kind in ('read', 'write'):
@@ -575,5 +606,6 @@ def subchecks(tier):
         Sub('single-preemptions', run_mem, cases=single_preemption_cases, distinct_by_construction=True),
         Sub('long-writes', run_mem, cases=long_write_cases, distinct_by_construction=True),
         Sub('drop-sweep', run_mem, cases=drop_sweep_cases, distinct_by_construction=True),
+        Sub('error-sweep', run_mem, cases=error_sweep_cases, distinct_by_construction=True),
         Sub('deck-api', run_deck_api, strategy=deck_api_case(), examples={'quick': 600, 'thorough': 30000}),
     ]
